@@ -457,6 +457,30 @@ Fixpoint cnt_add {A} (eqb : A -> A -> bool) (c : list (A * nat)) (x : A) : list 
 Definition counter {A} (eqb : A -> A -> bool) (l : list A) : list (A * nat) :=
   fold_left (cnt_add eqb) l [].
 
+(* the `for current_outcome, count in Counter(current_outcomes).items()` loop;
+   `rec` = the recursive call of _populate_samples one level down, `full` = the new outcome is a full state *)
+Fixpoint pop_loop (rec : key -> nat -> list nat -> option (list (key * nat) * list nat * calllog))
+                  (full : bool) (rs : key) (ocs : list (nat * nat)) (t : list nat) {struct ocs}
+  : option (list (key * nat) * list nat * calllog) :=
+  match ocs with
+  | [] => Some ([], t, [])
+  | (o, c) :: more =>
+      if full then                                         (* "It's a full one" *)
+        match pop_loop rec full rs more t with
+        | None => None
+        | Some (acc, t', lg) => Some ((rs ++ [o], c) :: acc, t', lg)
+        end
+      else
+        match rec (rs ++ [o]) c t with                     (* Recurse *)
+        | None => None
+        | Some (s1, t2, lg1) =>
+            match pop_loop rec full rs more t2 with
+            | None => None
+            | Some (s2, t3, lg2) => Some (s1 ++ s2, t3, lg1 ++ lg2)
+            end
+        end
+  end.
+
 Fixpoint populate (rest : list (list Q)) (cond : list (key * list Q)) (rs : key) (nd : nat)
                   (tape : list nat) {struct rest} : option (list (key * nat) * list nat * calllog) :=
   match dget cond rs with
@@ -473,30 +497,9 @@ Fixpoint populate (rest : list (list Q)) (cond : list (key * list Q)) (rs : key)
           match draw probs nd tape with
           | None => None
           | Some (outs, t1) =>
-              match
-              (fix go (ocs : list (nat * nat)) (t : list nat) {struct ocs}
-                 : option (list (key * nat) * list nat * calllog) :=
-                 match ocs with
-                 | [] => Some ([], t, [])
-                 | (o, c) :: more =>
-                     match rest' with
-                     | [] =>                                   (* "It's a full one" *)
-                         match go more t with
-                         | None => None
-                         | Some (acc, t', lg) => Some ((rs ++ [o], c) :: acc, t', lg)
-                         end
-                     | _ :: _ =>
-                         match populate rest' cond (rs ++ [o]) c t with
-                         | None => None
-                         | Some (s1, t2, lg1) =>
-                             match go more t2 with
-                             | None => None
-                             | Some (s2, t3, lg2) => Some (s1 ++ s2, t3, lg1 ++ lg2)
-                             end
-                         end
-                     end
-                 end) (counter Nat.eqb outs) t1
-              with
+              match pop_loop (fun rs' c t => populate rest' cond rs' c t)
+                             (match rest' with [] => true | _ :: _ => false end)
+                             rs (counter Nat.eqb outs) t1 with
               | None => None
               | Some (s, t, lg) => Some (s, t, (nd, probs) :: lg)
               end
